@@ -1,14 +1,240 @@
-(* C11 - statements only; see Proofs/.  (first theorems; the full set is being added) *)
-From Coq Require Import List Bool.
-From GR Require Import Base.Bytes Base.Res Codec.Schema Codec.Tracker.
+(* C11 - Schema validity constraints are enforced when encoding and when decoding:
+     - a union carries exactly one member (at most one if it is nullable);
+     - a fixed has exactly its declared size;
+     - an enum is written only if it is one of its declared symbols, and an unknown symbol read from the wire becomes the
+       distinguished unknown value (VEnum 0), never another symbol.
+   Statements only; every proof is in Proofs/ValidityProofs.v (which also holds the vocabulary: [typed], [valid], [vdepth],
+   [count_set], [union_ok], [live], [none_members], [dvalid], [is_zero]).  The models are Codec/Encode.v ([enc]: the generated
+   MarshalRestLi code) and Codec/Decode.v ([decJ]: the generated UnmarshalRestLi code over a JSON tree; [decR]: the same over the
+   ROR2 cursor).  All statements hold for ALL environments, types, values, documents and fuels.
+
+   NOT MODELLED HERE: the partial-update (patch) constraints of C11 (IllegalPartialUpdateError: a field both $set and $delete-d,
+   patching a read-only field, ...).  Nothing below says anything about them. *)
+From Coq Require Import List Bool Arith ZArith NArith Lia.
+From Coq.Strings Require Import Byte.
+From GR Require Import Base.Bytes Base.Res Base.Dec Codec.Schema Codec.Doc Codec.Json Codec.Tracker Codec.Encode Codec.Decode
+  Proofs.CanonProofs Proofs.Ror2NoPanic Proofs.ValidityProofs.
 Import ListNotations.
 
-(* the list of missing fields raised to the caller is sorted (sort.Strings) and holds exactly the recorded paths *)
-Theorem sort_bytes_length_11 : forall l, length (sort_bytes l) = length l.
+(* ===================================================== ENCODING ===================================================== *)
+
+(* [typed e t v]: v has the shape of the generated Go type of t (an enum is any int32 constant, a fixed is an array of the
+   declared length, a union struct has one pointer per member, an unset required field does not exist).
+   [valid e t v]: at every position of v (there is none below an unset optional field or an unset union member) every union has
+   exactly one member set - or none if nullable - and every enum constant k satisfies 1 <= k <= number of symbols. *)
+
+(* 1. An invalid value is never written: with no exclusion spec the outcome is an error - never Ok, never a panic.
+      (Typing is not even needed for this direction.) *)
+Theorem invalid_not_emitted : forall e wildcard fuel scope t v,
+  ~ valid e t v -> exists x, enc e wildcard ps_empty fuel scope t v = Err x.
+Proof. exact ValidityProofs.invalid_not_emitted. Qed.
+Print Assumptions invalid_not_emitted.
+
+(* ... equivalently: whatever is written is valid *)
+Theorem enc_ok_valid : forall e wildcard fuel scope t v d, enc e wildcard ps_empty fuel scope t v = Ok d -> valid e t v.
+Proof. exact ValidityProofs.enc_ok_valid. Qed.
+Print Assumptions enc_ok_valid.
+
+(* 2. Nothing else is rejected: a typed valid value is written as soon as the recursion budget of the model exceeds the nesting
+      depth of the value - with ANY exclusion spec.  (The size of a fixed is part of [typed]: the Go type is an array.) *)
+Theorem valid_emitted : forall e wildcard excl fuel scope t v,
+  typed e t v -> valid e t v -> vdepth v < fuel -> exists d, enc e wildcard excl fuel scope t v = Ok d.
+Proof. exact ValidityProofs.valid_emitted. Qed.
+Print Assumptions valid_emitted.
+
+(* 3. The complete outcome on typed values: written iff valid; otherwise rejected with the union or the enum error. *)
+Theorem typed_encode_outcome : forall e wildcard fuel scope t v,
+  typed e t v -> vdepth v < fuel ->
+  (valid e t v /\ exists d, enc e wildcard ps_empty fuel scope t v = Ok d) \/
+  (~ valid e t v /\ (enc e wildcard ps_empty fuel scope t v = Err EUnion \/ enc e wildcard ps_empty fuel scope t v = Err EEnumConst)).
+Proof. exact ValidityProofs.typed_encode_outcome. Qed.
+Print Assumptions typed_encode_outcome.
+
+(* 4. The individual rejections (any exclusion spec).  A non-nullable union with no member set: *)
+Theorem enc_union_zero_members : forall e wildcard excl f scope n ms vs,
+  lookup e n = Some (DUnion false ms) -> length vs = length ms -> count_set vs = 0 ->
+  enc e wildcard excl (S f) scope (TRef n) (VUnion vs) = Err EUnion.
+Proof. exact ValidityProofs.enc_union_zero_members. Qed.
+Print Assumptions enc_union_zero_members.
+
+(* two or more members set: always an error; the union error as soon as the members themselves can be written *)
+Theorem enc_union_many_members : forall e wildcard excl f scope n nullable ms vs,
+  lookup e n = Some (DUnion nullable ms) -> 2 <= count_set vs ->
+  (exists err, enc e wildcard excl (S f) scope (TRef n) (VUnion vs) = Err err) /\
+  (Forall2 (fun (m : bytes * ty) ov => forall v, ov = Some v ->
+              exists d, excluded wildcard excl (scope ++ [fst m]) = false /\
+                        enc e wildcard excl f (scope ++ [fst m]) (snd m) v = Ok d) ms vs ->
+   enc e wildcard excl (S f) scope (TRef n) (VUnion vs) = Err EUnion).
+Proof. exact ValidityProofs.enc_union_many_members. Qed.
+Print Assumptions enc_union_many_members.
+
+(* an enum constant that is not a declared symbol (0 = the generated unknown constant, or out of range) *)
+Theorem enc_enum_illegal : forall e wildcard excl f scope syms k,
+  ~ (1 <= k <= length syms) -> enc e wildcard excl (S f) scope (TEnum syms) (VEnum k) = Err EEnumConst.
+Proof. exact ValidityProofs.enc_enum_illegal. Qed.
+Print Assumptions enc_enum_illegal.
+
+(* ================================================== DECODING (JSON) ================================================== *)
+
+(* 5. The union reader, completely, by the non-null entries [live es] of the JSON object (a null document counts as no entry):
+      none      -> accepted iff nullable, as the struct with no member set;
+      one       -> unknown alias: an error (the union error, or ExcludedFieldError if enterMapScope rejects the key first);
+                   known alias (index j, the first member with that alias): accepted iff the member decodes, and the result is
+                   the struct with exactly member j set ([single_member] below);
+      two or more -> never accepted; precisely the union error when the first member decoded and no key is excluded. *)
+Theorem union_decodes_exactly_one : forall e w x ig pF f top n nullable ms d es tr,
+  lookup e n = Some (DUnion nullable ms) -> (d = JNull /\ es = [] \/ d = JObj es) ->
+  let R := decJ e w x ig pF (S f) top (TRef n) d tr in
+  let D := decJ e w x ig pF f in
+  match live es with
+  | [] => R = if nullable then Ok (VUnion (none_members ms), tr) else Err EUnion
+  | [(k, xd)] =>
+      match index_of k (map fst ms) 0 with
+      | None => R = (do _ <- enter_map w x ig k tr; Err EUnion)
+      | Some j =>
+          exists mt, nth_error ms j = Some (k, mt) /\ j < length ms /\
+            R = (do tr1 <- enter_map w x ig k tr; do rr <- D false mt xd tr1;
+                 Ok (VUnion (set_nth j (Some (fst rr)) (none_members ms)), pop (snd rr)))
+      end
+  | (k1, x1) :: (k2, x2) :: _ =>
+      (exists err, R = Err err) /\
+      (forall tr1 j a mt v tr2 tr3,
+         enter_map w x ig k1 tr = Ok tr1 -> index_of k1 (map fst ms) 0 = Some j -> nth_error ms j = Some (a, mt) ->
+         D false mt x1 tr1 = Ok (v, tr2) -> enter_map w x ig k2 (pop tr2) = Ok tr3 -> R = Err EUnion)
+  end.
+Proof. exact ValidityProofs.union_decodes_exactly_one_J. Qed.
+Print Assumptions union_decodes_exactly_one.
+
+Theorem single_member : forall (ms : list (bytes * ty)) j (v : value), j < length ms ->
+  count_set (set_nth j (Some v) (none_members ms)) = 1 /\
+  forall i, nth_error (set_nth j (Some v) (none_members ms)) i =
+            if Nat.eqb i j then Some (Some v) else if Nat.ltb i (length ms) then Some None else None.
+Proof. exact ValidityProofs.single_member. Qed.
+Print Assumptions single_member.
+
+(* 6. fixed: the JSON string is decoded one code point (0..255) per byte and must then have exactly the declared size *)
+Theorem fixed_size_enforced : forall e w x ig pF f top n d tr,
+  decJ e w x ig pF (S f) top (TFixed n) d tr =
+  match d with
+  | JStr s => match latin1_decode (S (length s)) s with
+              | Some b => if Nat.eqb (length b) n then Ok (VFixed b, tr) else Err EFixedSize
+              | None => Err EDeser
+              end
+  | _ => Err EDeser
+  end.
+Proof. exact ValidityProofs.fixed_size_enforced_J. Qed.
+Print Assumptions fixed_size_enforced.
+
+Theorem fixed_ok_size : forall e w x ig pF f top n d tr v tr',
+  decJ e w x ig pF (S f) top (TFixed n) d tr = Ok (v, tr') ->
+  exists s b, d = JStr s /\ latin1_decode (S (length s)) s = Some b /\ length b = n /\ v = VFixed b /\ tr' = tr.
+Proof. exact ValidityProofs.fixed_ok_size_J. Qed.
+Print Assumptions fixed_ok_size.
+
+(* 7. enum: a text that is not a declared symbol gives the unknown constant 0; a declared one gives the constant of the FIRST
+      symbol equal to it - never another symbol *)
+Theorem unknown_enum_symbol : forall e w x ig pF f top syms s tr,
+  (~ In s syms -> decJ e w x ig pF (S f) top (TEnum syms) (JStr s) tr = Ok (VEnum 0, tr)) /\
+  (In s syms -> exists i, decJ e w x ig pF (S f) top (TEnum syms) (JStr s) tr = Ok (VEnum (S i), tr) /\
+                          nth_error syms i = Some s /\ forall m, m < i -> nth_error syms m <> Some s).
+Proof. exact ValidityProofs.unknown_enum_symbol_J. Qed.
+Print Assumptions unknown_enum_symbol.
+
+(* 8. Whatever the JSON decoder accepts satisfies [dvalid]: every union decoded from the document has exactly one member (none
+      only if nullable) and one slot per declared member, every fixed has its size, every enum is a declared constant or 0.
+      A REQUIRED record field (or an included record) with no entry in the document keeps the zero value of its Go type
+      ([is_zero]); such a slot is exempted - its absence is reported through the missing-fields tracker (C07). *)
+Theorem decoded_values_valid : forall e w x ig pF fuel top t d tr v tr',
+  decJ e w x ig pF fuel top t d tr = Ok (v, tr') -> dvalid e t v.
+Proof. exact ValidityProofs.decJ_dvalid. Qed.
+Print Assumptions decoded_values_valid.
+
+Theorem union_decoded_constraint : forall e w x ig pF fuel top n nullable ms d tr v tr',
+  lookup e n = Some (DUnion nullable ms) -> decJ e w x ig pF fuel top (TRef n) d tr = Ok (v, tr') ->
+  exists uv, v = VUnion uv /\ length uv = length ms /\ union_ok nullable uv.
+Proof. exact ValidityProofs.union_decoded_constraint_J. Qed.
+Print Assumptions union_decoded_constraint.
+
+(* The exemption is necessary.  The unconditional statement "an ACCEPTED document never yields a non-nullable union with no
+   member" is false of the model of the current code: for the type array<R>, R = { u : U (required) }, the document [{}] is
+   accepted (a top-level value that is not a record never raises the missing-fields report: defect D33) and the caller gets
+   R.u with no member set. *)
+Definition decoded_unions_never_empty_full : Prop :=
+  forall e w x ig pF fuel t data v,
+    (forall n nullable ms, lookup e n = Some (DUnion nullable ms) -> nullable = false) ->
+    decode_json e w x ig pF fuel t data = DOk v -> has_empty_union v = false.
+
+Theorem decoded_unions_never_empty_refuted :
+  exists e w x ig pF fuel t data v,
+    (forall n nullable ms, lookup e n = Some (DUnion nullable ms) -> nullable = false) /\
+    decode_json e w x ig pF fuel t data = DOk v /\ has_empty_union v = true.
+Proof. exact ValidityProofs.decoded_unions_never_empty_refuted. Qed.
+Print Assumptions decoded_unions_never_empty_refuted.
+
+(* ============================================== DECODING (ROR2, cursor level) ============================================== *)
+
+Theorem decoded_values_valid_ror2 : forall e w x ig pF unesc em lp qr fuel t s v s',
+  decR e w x ig pF unesc em lp qr fuel t s = Ok (v, s') -> dvalid e t v.
+Proof. exact ValidityProofs.decR_dvalid. Qed.
+Print Assumptions decoded_values_valid_ror2.
+
+Theorem union_decoded_constraint_ror2 : forall e w x ig pF unesc em lp qr fuel n nullable ms s v s',
+  lookup e n = Some (DUnion nullable ms) -> decR e w x ig pF unesc em lp qr fuel (TRef n) s = Ok (v, s') ->
+  exists uv, v = VUnion uv /\ length uv = length ms /\ union_ok nullable uv.
+Proof. exact ValidityProofs.union_decoded_constraint_R. Qed.
+Print Assumptions union_decoded_constraint_ror2.
+
+(* once a member is set, the only continuation the union loop accepts is the closing parenthesis *)
+Theorem union_second_member_ror2 : forall e w x ig pF unesc em lp qr f ms k uv s r,
+  goRuni w x ig unesc em (decR e w x ig pF unesc em lp qr f) ms (S k) uv true s = Ok r ->
+  exists c, idx s = Ok c /\ Byte.eqb c x29 = true /\ r = (uv, true, advance 1 s).
+Proof. exact ValidityProofs.union_second_member_R. Qed.
+Print Assumptions union_second_member_ror2.
+
+Theorem unknown_enum_symbol_ror2 : forall e w x ig pF unesc em lp qr f syms s v s',
+  decR e w x ig pF unesc em lp qr (S f) (TEnum syms) s = Ok (v, s') ->
+  exists text, read_string unesc em s = Ok (text, s') /\ v = enum_value syms text /\
+    ((~ In text syms /\ v = VEnum 0) \/
+     (exists i, v = VEnum (S i) /\ nth_error syms i = Some text /\ forall m, m < i -> nth_error syms m <> Some text)).
+Proof. exact ValidityProofs.unknown_enum_symbol_R. Qed.
+Print Assumptions unknown_enum_symbol_ror2.
+
+Theorem fixed_size_enforced_ror2 : forall e w x ig pF unesc em lp qr f n s,
+  decR e w x ig pF unesc em lp qr (S f) (TFixed n) s =
+  (do r <- read_string unesc em s;
+   if Nat.eqb (length (fst r)) n then Ok (VFixed (fst r), snd r) else Err EFixedSize).
+Proof. exact ValidityProofs.fixed_size_enforced_R. Qed.
+Print Assumptions fixed_size_enforced_ror2.
+
+(* ==================================================== NON-VACUITY ==================================================== *)
+(* union U { a : int, b : int } (not nullable); record R { u : U }; enum E { A } *)
+Definition ex_env : env :=
+  [DUnion false [([x61], TPrim PInt); ([x62], TPrim PInt)];
+   DRecord [] [{| f_name := [x75]; f_ty := TRef 0; f_opt := Required |}]].
+Definition ex_two : value := VUnion [Some (VInt 1); Some (VInt 2)].
+Definition ex_noF : nat -> bytes -> option N := fun _ _ => None.
+(* {"a":1,"b":2}   and   "B" *)
+Definition ex_doc_two : bytes := [x7b; x22; x61; x22; x3a; x31; x2c; x22; x62; x22; x3a; x32; x7d].
+Definition ex_doc_B : bytes := [x22; x42; x22].
+
+Example c11_non_vacuous :
+  (* a union with two members set is typed, is not valid, and fails to encode; with one member it is written *)
+  typed ex_env (TRef 0) ex_two /\ ~ valid ex_env (TRef 0) ex_two /\
+  enc ex_env [x2a] ps_empty 5 [] (TRef 0) ex_two = Err EUnion /\
+  enc ex_env [x2a] ps_empty 5 [] (TRef 0) (VUnion [None; None]) = Err EUnion /\
+  enc ex_env [x2a] ps_empty 5 [] (TRef 0) (VUnion [None; Some (VInt 2)]) = Ok (DObj [([x62], DLeaf (LInt 2))]) /\
+  enc ex_env [x2a] ps_empty 5 [] (TEnum [[x41]]) (VEnum 2) = Err EEnumConst /\
+  (* the premise "no exclusion spec" of [invalid_not_emitted] is necessary: below an excluded field nothing is validated *)
+  enc ex_env [x2a] (PS [([x75], PS [])]) 5 [] (TRef 1) (VRec [] [Some ex_two]) = Ok (DObj []) /\
+  (* a document with two members fails to decode; an unknown enum symbol decodes to the unknown constant *)
+  decode_json ex_env [x2a] ps_empty 0 ex_noF 5 (TRef 0) ex_doc_two = DErr EUnion /\
+  decode_json ex_env [x2a] ps_empty 0 ex_noF 5 (TEnum [[x41]]) ex_doc_B = DOk (VEnum 0) /\
+  decode_json ex_env [x2a] ps_empty 0 ex_noF 5 (TFixed 2) ex_doc_B = DErr EFixedSize.
 Proof.
-  assert (Hi : forall k l, length (insert_bytes k l) = S (length l)).
-  { intros k l. induction l as [|x r IH]; cbn [insert_bytes length]; [reflexivity|].
-    destruct (bytes_ltb x k); cbn [length]; [rewrite IH|]; reflexivity. }
-  induction l as [|k r IH]; cbn [sort_bytes length]; [reflexivity|]. rewrite Hi, IH. reflexivity.
+  split.
+  { eapply T_union; [reflexivity|]. repeat constructor; intros y Hy; inversion Hy; constructor. }
+  split.
+  { intros H. inversion H as [| | | | | |n nullable ms vs L U F]; subst.
+    unfold union_ok in U. simpl in U. destruct U as [U|[_ U]]; discriminate. }
+  repeat split; vm_compute; reflexivity.
 Qed.
-Print Assumptions sort_bytes_length_11.
